@@ -472,7 +472,10 @@ class McmcSim:
             rec = self.cur
             before = boldness(op)
             tv_before = tuning_value(op)
-            self.pre_tune_checks(op, rec, float(acceptance_prob))
+            try:
+                self.pre_tune_checks(op, rec, float(acceptance_prob))
+            except Exception:  # noqa: BLE001 - the counterfactual copy could not be driven: no verdict
+                self.probe("counterfactual_failed")
             try:
                 r = orig(acceptance_prob, *a, **k)
             except Exception:
